@@ -63,9 +63,10 @@ def concretise(gen_plan, pid, rng):
     for s in gen_plan["steps"]:
         a = s["a"]
         if a == "hdr":
-            steps.append({"a": "hdr", "up": s["up"], "veto": s["veto"], "start": s["start"]})
+            # "can" is realised as the full 20-byte cancel sequence or as five bare CAN bytes
+            steps.append({"a": "hdr", "up": s["up"], "veto": s["veto"], "start": s["start"], "short": rng.random() < 0.5})
         elif a == "srv":
-            steps.append({"a": "srv", "k": s["k"], "ms": rng.choice(DELAYS)})
+            steps.append({"a": "srv", "k": s["k"], "ms": rng.choice(DELAYS), "short": rng.random() < 0.5})
         elif a == "hout":
             steps.append({"a": "hout", "k": s["k"], "ms": rng.choice(DELAYS)})
         elif a == "hexit":
@@ -136,7 +137,7 @@ def run_plans(h, name, plans, nohelper, par):
 
 def judge(files, plans_by_id, nohelper, v, cov):
     """Trace validation of the recorded runs; returns (stuck reports, rejected files)."""
-    res = vlib.validate_traces("ZmodemTrace", "ZmodemTrace.cfg", files, timeout=1200)
+    res = vlib.validate_traces("ZmodemTrace", "ZmodemTrace.cfg", files, par=6, timeout=1200, heap="1g")
     stuck, nrej = {}, 0
     for f, r in zip(files, res):
         ev = vlib.read_ndjson(f)
@@ -205,6 +206,7 @@ def tlc_trace(out, limit=40):
 
 def run(tier, v):
     quick = tier == "quick"
+    HEAP = "2g" if quick else "6g"      # the machine is shared: keep the JVMs small
     cov = {"samples": []}
     rng = random.Random(vlib.seed() * 7919 + 19)
     vlib._specdir()
@@ -214,13 +216,13 @@ def run(tier, v):
 
     def design():
         try:
-            box["r"] = vlib.tlc("Zmodem", main_cfg, timeout=3000, heap="8g", coverage=not quick)
+            box["r"] = vlib.tlc("Zmodem", main_cfg, timeout=3000, heap=HEAP, workers=8, coverage=not quick)
         except Exception as e:     # re-raised in the main thread
             box["e"] = e
     th = threading.Thread(target=design)
     th.start()
     # 2. scenarios from the spec
-    g = vlib.tlc("ZmodemGen", "ZmodemGen_quick.cfg", timeout=1200, heap="4g", workers=4)
+    g = vlib.tlc("ZmodemGen", "ZmodemGen_quick.cfg", timeout=1200, heap="2g", workers=4)
     if not g["ok"]:
         raise vlib.Infra("ZmodemGen failed: %s\n%s" % (g["violated"], g["out"][-2000:]))
     gen = list({json.dumps(p, sort_keys=True): p for p in vlib.mbt_lines(g["out"])}.values())
@@ -231,6 +233,14 @@ def run(tier, v):
     quotas = {"ok": 110, "nochoice": 14, "veto": 10, "nopath": 26} if quick else \
              {"ok": 1100, "nochoice": 160, "veto": 90, "nopath": 220}
     chosen = sample(gen, quotas, rng)
+    if not quick:
+        # longer scenarios (two quiet points, up to 7 steps) from random behaviours of the spec
+        g2 = vlib.tlc("ZmodemGen", "ZmodemGen_sim.cfg", workers=1, timeout=400, heap="2g", simulate="num=4000", depth=70,
+                      extra_args=["-seed", str(vlib.seed())])
+        gen2 = list({json.dumps(p, sort_keys=True): p for p in vlib.mbt_lines(g2["out"]) if len(p["steps"]) > 5}.values())
+        gen2.sort(key=lambda p: json.dumps(p, sort_keys=True))
+        cov["gen_simulated_scenarios"] = len(gen2)
+        chosen += sample(gen2, {"ok": 260, "nochoice": 40, "veto": 20, "nopath": 60}, rng)
     plans = [concretise(p, i, rng) for i, p in enumerate(chosen)]
     if not quick:
         for lp in long_plans():
@@ -333,7 +343,7 @@ def run(tier, v):
         raise box["e"]
     r = box["r"]
     if not (f0 and f1):
-        r = vlib.tlc("Zmodem", variant_cfg(main_cfg, f0, f1, "Zmodem_obs.cfg"), timeout=3000, heap="8g")
+        r = vlib.tlc("Zmodem", variant_cfg(main_cfg, f0, f1, "Zmodem_obs.cfg"), timeout=3000, heap=HEAP, workers=8)
     if not r["ok"]:
         raise vlib.Infra("Zmodem (variant %s) violates %s on the design level: %s\n%s"
                          % (cov["observed_variant"], r["violated"], tlc_trace(r["out"]), r["out"][-1500:]))
@@ -345,7 +355,7 @@ def run(tier, v):
         ac = vlib.action_counts(box["r"]["out"])
         cov["action_counts"] = ac
         cov["actions_never_fired"] = [a for a, c in ac.items() if c[1] == 0]
-        rr = vlib.tlc("Zmodem", "Zmodem_repaired.cfg", timeout=3000, heap="8g")
+        rr = vlib.tlc("Zmodem", "Zmodem_repaired.cfg", timeout=3000, heap="2g", workers=8)
         cov["repaired_variant_strict"] = {"ok": bool(rr["ok"]), "violated": rr["violated"], "states": rr["distinct"]}
         if not rr["ok"]:
             raise vlib.Infra("the repaired variant violates %s: %s" % (rr["violated"], tlc_trace(rr["out"])))
@@ -368,12 +378,12 @@ def run(tier, v):
             tail[name] = fn()
         except Exception as e:
             tail[name] = e
-    jobs = [("corrupt", lambda: vlib.selftest_reject("ZmodemTrace", "ZmodemTrace.cfg", first_file, corrupt)),
-            ("drop", lambda: vlib.selftest_reject("ZmodemTrace", "ZmodemTrace.cfg", first_file, drop))]
+    jobs = [("corrupt", lambda: vlib.selftest_reject("ZmodemTrace", "ZmodemTrace.cfg", first_file, corrupt, heap="1g")),
+            ("drop", lambda: vlib.selftest_reject("ZmodemTrace", "ZmodemTrace.cfg", first_file, drop, heap="1g"))]
     if f0:
-        jobs.append(("NoCrash", lambda: vlib.tlc("Zmodem", "Zmodem_f0.cfg", timeout=600, heap="4g", workers=2)))
+        jobs.append(("NoCrash", lambda: vlib.tlc("Zmodem", "Zmodem_f0.cfg", timeout=600, heap="1g", workers=2)))
     if f1:
-        jobs.append(("NotStuck", lambda: vlib.tlc("Zmodem", "Zmodem_f1.cfg", timeout=600, heap="4g", workers=2)))
+        jobs.append(("NotStuck", lambda: vlib.tlc("Zmodem", "Zmodem_f1.cfg", timeout=600, heap="1g", workers=2)))
     tths = []
     for name, fn in jobs:
         t = threading.Thread(target=job, args=(name, fn))
